@@ -77,12 +77,26 @@ func main() {
 		w, err := Load(*repo, patterns, false, overlay)
 		if err != nil {
 			fmt.Printf("load failed (undecided): %v\n", err)
+			if os.Getenv("ARVCHECK_SELFTEST") != "" {
+				code = 3 // variant does not type-check: skipped by the self-test
+				return
+			}
 			fmt.Printf("VIOLATION property=%s replay=%s/evidence/%s.violations.json\n", pd.ID, *verif, pd.ID)
 			code = 1
 			return
 		}
 		r := NewR(w, pd.ID, *tier)
 		pd.Run(r)
+		if *tier == "thorough" && os.Getenv("ARVCHECK_SELFTEST") == "" {
+			max := 150
+			if m := os.Getenv("VERIF_SELFTEST_MAX"); m != "" {
+				if n, err := strconv.Atoi(m); err == nil {
+					max = n
+				}
+			}
+			r.Extra["whole_module_load"] = true
+			r.Extra["selftest"] = runSelfTest(r, *repo, seed, max)
+		}
 		code = r.Finish(*verif, start, seed)
 	}()
 	os.Exit(code)
